@@ -85,8 +85,12 @@ def generate(rng, tier):
                 sp = base_stack + gran * rng.range(0, 4)
                 bp = 0x7800
                 regs = s.regs_x86(a, sp, bp) if arch == "x86" else s.regs_a64(M64, 0x4444, sp, bp)
-                s.add("newcache F")
-                ln = s.add("unwind %s F %s %s %s S" % (u, kind, hx(addr), regs))
+                # two probes out of three go through ONE cache that lives as long as the script (what it has seen
+                # must not matter: the module an address belongs to is decided by the registered ranges alone)
+                cname = "C" if rng.below(3) else "F"
+                if cname == "F":
+                    s.add("newcache F")
+                ln = s.add("unwind %s %s %s %s %s S" % (u, cname, kind, hx(addr), regs))
                 hit = None
                 for st, mid in cur.items():
                     if st <= a < mods[mid]["end"] and 0 <= a - mods[mid]["base"] < (1 << 32):
